@@ -676,9 +676,11 @@ ASTNode *StatementParser::parseTypedefTypeStatement(
         }
 
         // 戻り値のconst情報を設定
+        // 先頭の const は parseStatement() が既に消費している (isConst) ので
+        // parseType() には見えない: const S* f() の const はここで反映する
         if (func_node && return_type_info.is_pointer) {
             func_node->is_pointee_const_qualifier =
-                return_type_info.is_pointee_const;
+                return_type_info.is_pointee_const || isConst;
         }
 
         // v0.12.0: async関数フラグを設定
